@@ -437,7 +437,7 @@ func runProp(p *Prog, prop string, secs int, smtDir string) ([]*funcResult, []st
 		}
 		if prop != "" && !hasProp(sp.Props, prop) {
 			tagged := false
-			for _, c := range append(append([]*Clause{}, sp.Ensures...), sp.Requires...) {
+			for _, c := range append(append(append([]*Clause{}, sp.Ensures...), sp.Requires...), sp.Exits...) {
 				if hasProp(c.Props, prop) {
 					tagged = true
 				}
